@@ -712,6 +712,7 @@ func genBytesRaw(g *rng, n int) []byte {
 }
 
 func propC13(r *Run) {
+	c13Fsize(r)
 	dir, err := ioutil.TempDir(".", "c13-")
 	if err != nil {
 		panic(err)
